@@ -440,6 +440,10 @@ pub fn run(ctx: &Ctx) {
     let max_pages = ctx.tier.pick(4, 12);
     run_generated(ctx, "scenarios", ctx.tier.pick(150_000, 2_000_000), move || scenario_strategy(max_pages), |c, st| check_scenario(c, st));
 
+    crate::engine::with_logging(|| {
+        run_generated(ctx, "scenarios+logging", ctx.tier.pick(15_000, 200_000), move || scenario_strategy(max_pages), |c, st| check_scenario(c, st));
+    });
+
     // generator health: every prior state must be reachable through both entry points often enough
     if !ctx.stopped() {
         for s in crate::oracle::table::STATES.iter().map(|x| x.0) {
